@@ -32,11 +32,8 @@ use crate::client::{
 use crate::params::ArrayParams;
 use crate::traits::ToRpcParams;
 
-use futures_timer::Delay;
-use futures_util::future::{self, Either};
 use http::Extensions;
 use serde_json::value::RawValue;
-use tokio::sync::oneshot;
 
 use jsonrpsee_types::response::SubscriptionError;
 use jsonrpsee_types::{
@@ -280,13 +277,3 @@ pub(crate) fn build_unsubscribe_message(
 	Some(RequestMessage { raw, id: unsub_req_id, send_back: None })
 }
 
-/// Wait for a stream to complete within the given timeout.
-pub(crate) async fn call_with_timeout<T>(
-	timeout: std::time::Duration,
-	rx: oneshot::Receiver<Result<T, Error>>,
-) -> Result<Result<T, Error>, oneshot::error::RecvError> {
-	match future::select(rx, Delay::new(timeout)).await {
-		Either::Left((res, _)) => res,
-		Either::Right((_, _)) => Ok(Err(Error::RequestTimeout)),
-	}
-}
